@@ -29,11 +29,14 @@ schema { query: Query mutation: Mutation }
 """root"""
 directive @oneOf on INPUT_OBJECT
 directive @tagged(name: String) on FIELD_DEFINITION | INPUT_FIELD_DEFINITION | OBJECT | ENUM_VALUE | ARGUMENT_DEFINITION
-type Query { user(id: ID!, filter: Filter): User  lookup(by: Lookup @tagged(name: "arg")): User  search(text: String = "x", kinds: [Kind!] = [A]): [Result!]!  _service(where: _text_exp, any: _Any): _Service }
+type Query { node(id: ID!): Node  nodes: [Node!]  user(id: ID!, filter: Filter): User  lookup(by: Lookup @tagged(name: "arg")): User  search(text: String = "x", kinds: [Kind!] = [A]): [Result!]!  _service(where: _text_exp, any: _Any): _Service }
 type Mutation { update(data: UserInput!, opts: Options = {dry: true, level: 2}): User }
 """a user"""
 type User implements Node { id: ID! name: String kind: Kind! friends: [User!] seen: Instant uid: Ident }
 type Post implements Node { id: ID! title: String! }
+type Zebra implements Node { id: ID! stripes: Int }
+type Mango implements Node { id: ID! }
+type Apple implements Node { id: ID! }
 interface Node { id: ID! }
 union Result = User | Post
 enum Kind {
@@ -64,6 +67,7 @@ query GetUser($id: ID!, $f: Filter = {limit: 2}) { user(id: $id, filter: $f) { i
 query Search($t: String, $k: [Kind!]) { search(text: $t, kinds: $k) { __typename ... on User { id name } ... on Post { title } } }
 mutation Update($d: UserInput!, $o: Options) { update(data: $d, opts: $o) { id } }
 query Service($w: _text_exp) { _service(where: $w) { sdl } }
+query GetNode($id: ID!) { node(id: $id) { __typename id ... on User { name } } nodes { __typename ... on Zebra { stripes } } }
 query Lookup($by: Lookup, $at: DateTime!, $seen: Instant!) { lookup(by: $by) { id seen uid } again: lookup(by: {at: $at}) { id } more: lookup(by: {seen: $seen}) { id } }
 '''
 
